@@ -213,6 +213,12 @@ def judge_record(tmpl, rec):
                 return res
             bad = [n for n in free_of(xt['term']) if n != 'fresh' and n not in fn]
             if bad: out.append(('extract_foreign_slot', k, bad))
+            if xt.get('free_term') is not None:
+                # the free function extract::<L, N, CF>: a member, as cheap as the oracle minimum, no foreign slots
+                if not xt['free_lookup_some'] or xt['free_lookup_eq'] is False: out.append(('extract_not_member', k, ['free function', xt['free_term']]))
+                if best is not None and cost_of(xt['free_term']) != best: out.append(('extract_not_cheapest', k, ['free function', cost_of(xt['free_term']), best]))
+                bad = [n for n in free_of(xt['free_term']) if n != 'fresh' and n not in fn]
+                if bad: out.append(('extract_foreign_slot', k, ['free function'] + bad))
         # explanations: the dumped proof DAG is re-checked node by node on terms (mirsmt/proofcheck.py)
         xp = st.get('explain')
         if xp:
